@@ -32,6 +32,9 @@ CHECKS = {
  'C19': dict(cat='exploration', tech=SYMX + ' (symbolic control flow); byte-exact stdout comparison',
    text='Seeded programs of 2..5 print/println/printf statements (values of every kind; anonymous, numbered, named, spec and escaped fields) wrapped in if/else and loops with symbolic conditions and interleaved with device commands run with the production output binding and a recording sys.stdout; on every feasible path the bytes written and their order relative to device commands equal what Python str/str.format produce under the documented rules.',
    note='Printed values are concrete (text is the observable); the solver only decides control flow. Trailing line break at end of output accepted either way; printf always followed by println in generated programs.', ref='4/C19'),
+ 'C02': dict(cat='exploration', tech='symbolic execution of the real lexer/parser/VM with uninterpreted operators (z3 EUF: parse-tree identity) and z3 reals/ints for operator arithmetic; quantified reachability query for random',
+   text='(a) every expression with up to 3 binary operators (14 operators, optional parentheses and unary minus; all six value positions for <=2 operators) and seeded 4-operator ones is compiled and evaluated by the real code on opaque operands whose operators are uninterpreted functions; z3 shows the result term equals the documented precedence/associativity parse under every interpretation, and that if/while branch on its truth. (b) each operator, unary minus, numbers-as-truth, every value position and round/trunc/floor/ceil/cycle on symbolic numbers equal the ordinary values. (c) [random a b] with the random source stubbed to its documented contract: a<=n<=b and every such n reachable.',
+   note='Operators per expression bounded (3 exhaustive, 4/5 seeded); ^ exponents 0..4 concrete; transcendental built-ins outside. Comparisons are normalised by Python reflection equivalences (x>y == y<x).', ref='4/C02'),
 }
 PENDING = {
 }
